@@ -207,6 +207,9 @@ fn main() {
       _ => "bad-op".to_string(),
     };
     writeln!(out, "{ans}").unwrap();
+    // flush per answer: if a later case kills the process (stack overflow), the caller must be able
+    // to attribute the death to the right case
+    out.flush().unwrap();
     if ans.starts_with("timeout@") {
       // the stuck worker thread cannot be killed: answer and leave (the caller restarts us)
       out.flush().unwrap();
